@@ -36,6 +36,13 @@ def compute_ls_estimation(Y_p: np.ndarray, s: np.ndarray) -> np.ndarray:
         The estimated channel using the LS algorithm.
         Dimension: either `Nr x Nt` or `num_realizations x Nr x Nt`
     """
+    # Integer arrays (in particular of a narrow type such as np.int8) would
+    # overflow in the products below -> compute in floating point
+    if Y_p.dtype.kind in 'iub':
+        Y_p = Y_p.astype(float)
+    if s.dtype.kind in 'iub':
+        s = s.astype(float)
+
     if Y_p.ndim == 2:
         assert (s.ndim == 2)
         return Y_p @ s.T.conj() @ np.linalg.inv(s @ s.conj().T)
